@@ -36,6 +36,8 @@ pub struct Scenario {
     pub as_client: bool,
     /// protocol version the peer speaks to an Undetermined server
     pub speak: Ver,
+    /// do nothing before the first CONNECT (used by the Undetermined-vs-fixed twin of C17)
+    pub connect_first: bool,
 }
 
 #[derive(Clone, Debug)]
@@ -146,7 +148,7 @@ impl Driver {
             });
         }
         self.mix(h);
-        self.trace.push(Step { call: call.short(), events: evs_short(&events) });
+        self.trace.push(Step { call: call.short(), events: evs_short(&normalise(&events)) });
         if !self.sink.found.is_empty() && self.sink.found.iter().all(|f| self.known.contains(&f.signature())) {
             let fs: Vec<Found> = self.sink.found.drain(..).collect();
             for f in fs {
@@ -739,6 +741,15 @@ impl Driver {
     fn step(&mut self) {
         let f = self.sc.focus;
         let ver = self.ver();
+        if self.sc.connect_first && self.model.connections == 0 && self.model.status == St::D {
+            let p = self.connect_pkt();
+            if self.sc.as_client {
+                self.send(p);
+            } else {
+                self.feed_pkt(&p);
+            }
+            return;
+        }
         if self.close_pending && (self.r.below(100) < 80 || self.model.status == St::D) {
             self.closed();
             return;
@@ -1035,5 +1046,5 @@ pub fn random_scenario(r: &mut Rng, focus: Focus, hostile_pct: u64) -> Scenario 
     let idw = if r.below(4) == 0 { 4 } else { 2 };
     let _ = BTreeSet::<u32>::new();
     let speak = if r.bool() { Ver::V5 } else { Ver::V311 };
-    Scenario { role, idw, ver, focus, max_ops: 10 + r.usize(50), hostile_pct, as_client, speak }
+    Scenario { role, idw, ver, focus, max_ops: 10 + r.usize(50), hostile_pct, as_client, speak, connect_first: false }
 }
